@@ -360,5 +360,56 @@ func c10(r *mon.Run) {
 				t.Nontrivial(fmt.Sprint("er:", i))
 			}
 		}}
-	r.Exec(exh, by, many, rnd, sizedWorkload(r, "sized-arrays-ill-typed", true), nj, erw)
+	// the one key of the other type at every position of arrays long enough for block-wise / merging sorts
+	// (24, 41, 61, 100 elements), the other keys descending, ascending or shuffled: no position may escape the
+	// "consistently a number or consistently a string" check
+	oddLens := []int{24, 41, 61, 100}
+	type okc struct{ n, p int }
+	var okcs []okc
+	for _, n := range oddLens {
+		for p := 0; p < n; p++ {
+			okcs = append(okcs, okc{n, p})
+		}
+	}
+	oddFns := []string{"sort_by", "max_by", "min_by"}
+	oddw := mon.Workload{Name: "odd-key-at-every-position", N: len(okcs) * 3 * 3 * len(oddFns),
+		Do: func(i int, t *mon.Tally) {
+			k := i
+			fn := oddFns[k%len(oddFns)]
+			k /= len(oddFns)
+			order := k % 3
+			k /= 3
+			kind := k % 3
+			c := okcs[k/3]
+			arr := make([]interface{}, c.n)
+			for q := range arr {
+				v := float64(c.n - q) // descending
+				switch order {
+				case 1:
+					v = float64(q)
+				case 2:
+					v = float64((q*37 + 11) % c.n)
+				}
+				var key interface{} = v
+				if kind == 1 {
+					key = fmt.Sprintf("k%04d", int(v))
+				}
+				arr[q] = map[string]interface{}{"k": key, "i": float64(q)}
+			}
+			var odd interface{} = "odd"
+			switch kind {
+			case 1:
+				odd = float64(7)
+			case 2:
+				odd = nil
+			}
+			arr[c.p] = map[string]interface{}{"k": odd, "i": float64(c.p)}
+			tree := gen.Func(fn, gen.Field("a"), gen.ExpRef(gen.Field("k")))
+			cx := &caseCtx{r, t, "odd-key-at-every-position", i}
+			res, _, _ := cx.runOne(tree, gen.SpellTight(tree), map[string]interface{}{"a": arr})
+			if isErr(res) {
+				t.NontrivialDistinct(1)
+			}
+		}}
+	r.Exec(exh, by, many, rnd, sizedWorkload(r, "sized-arrays-ill-typed", true), nj, erw, oddw)
 }
